@@ -241,8 +241,8 @@ func c05Regroup(c *Ctx) {
 		}
 	}
 	for n := 0; n <= 60; n++ {
-		in := bitdom.New(c.P.SSA, 64)
-		ex, err := in.Call(el, []bitdom.Val{bitdom.ConstBV(uint64(n), 64, true)})
+		in := bitdom.New(c.P.SSA, c.wordBits())
+		ex, err := in.Call(el, []bitdom.Val{bitdom.ConstBV(uint64(n), c.wordBits(), true)})
 		if err != nil || ex.Panic {
 			r.Undec("C05.regroup-bits.encoded-len", c.P.Pos(el.Pos()), "EncodedLen(%d) not foldable: %v", n, err)
 			return
